@@ -113,14 +113,17 @@ def mergeOne (c : LitCfg) (e : EqEnv) (first : Bool) (fields : Fields) (name : S
   | some orig =>
     match orig with
     | .opt origInner => do
-      if (← e.eq orig field) || (← e.eq origInner field) then pure fields else
+      -- `field_original == field or field_original.type == field` (Python `or` short-circuits)
+      if (← e.eq orig field) then pure fields else
+      if (← e.eq origInner field) then pure fields else
       let u := mkUnionMembers c (field.unionMembers ++ origInner.unionMembers)
       let inner := match u with | [x] => x | us => .union us
       pure (fields.set name (.opt inner))
     | _ => do
-      let same ← e.eq orig field
+      if (← e.eq orig field) then pure fields else
       let sameInner ← (match field with | .opt fi => e.eq orig fi | _ => pure false)
-      if same || sameInner then pure fields else
+      -- same type, but optional in this model: the merged field is optional too
+      if sameInner then pure (fields.set name field) else
       let u := mkUnionMembers c (field.unionMembers ++ orig.unionMembers)
       let f := match u with | [x] => x | us => .union us
       pure (fields.set name f)
